@@ -52,7 +52,8 @@ macro_rules! with_sim {
             "H:C07" => { let $s = &kit::Plus { a: sim_c::SimC7, b: sim_h::SimH { prop: sim_h::PropH::C07 }, every: 1, name: "H:whole-system(virtual time)" }; $body }
             "C04" => { let $s = &sim_c::SimC4; $body }
             "C08" => { let $s = &sim_e::SimE; $body }
-            "C12" => { let $s = &sim_d1::SimD1; $body }
+            "C12" => { let $s = &kit::Plus { a: sim_d1::SimD1, b: sim_h::SimH { prop: sim_h::PropH::C12 }, every: 100, name: "D1:reconnecting-streams+merge(virtual time) + H:whole-system(virtual time)" }; $body }
+            "H:C12" => { let $s = &kit::Plus { a: sim_d1::SimD1, b: sim_h::SimH { prop: sim_h::PropH::C12 }, every: 1, name: "H:whole-system(virtual time)" }; $body }
             "C06" => { let $s = &sim_d2::SimD2; $body }
             "C20" => { let $s = &sim_g::SimG; $body }
             $other => $else,
